@@ -18,7 +18,7 @@ RULE = ('programs = a generated header (0-4 leading comments of kinds `--`, `//`
         'of the re-read output equal the input\'s whenever the input has them. Non-trivial = at least one header '
         'comment and at least one later comment; distinct by source.'
         ' Header comments include one-line levelled long comments --[==[ ... ]==] with nothing after the closing bracket.')
-ASSUMPTIONS = ['lexical rules are represented by vlib/reflex.py', 'levelled long comments --[=[ are not generated (C07)']
+ASSUMPTIONS = ['lexical rules are represented by vlib/reflex.py', 'levelled long comments --[=[ ]=] occur only as one-line header comments with nothing after the closing bracket (there Lua\'s and picotool\'s reading coincide; C07)']
 LEVEL_TEXT = ('Exploration: generated header shapes x generated programs; the header clause is checked on bytes, the '
               '"never turns into code" clause with the C01 token oracle.')
 LEVEL_NOTE = 'Trusted: vlib/reflex.py, vlib/luagen.py.'
